@@ -540,10 +540,95 @@ let decode_line (line : string) =
     pr "%s\n" (arr_doc_str (nat_of_int (kvn rest "p")) (cty_of (kvs rest "vty")) (bytes_of_hex (kvs rest "b")))
   | _ -> pr "doc=SKIP\n"
 
+(* ---------- --coq mode: the model's answers as Coq goals, to be re-checked by vm_compute ---------- *)
+let coq_n x = "(" ^ string_of_n x ^ ")%N"
+let coq_z x = "(" ^ string_of_z x ^ ")%Z"
+let coq_opt f o = match o with Some x -> "(Some " ^ f x ^ ")" | None -> "None"
+let coq_bool b = if b then "true" else "false"
+let coq_list f l = "[" ^ String.concat "; " (List.map f l) ^ "]"
+let coq_cell (k, p) = "(" ^ coq_z k ^ ", " ^ coq_z p ^ ")"
+let coq_res f r = match r with Ok x -> "Ok " ^ f x | Panic _ -> "PANIC" | Fuel -> "FUEL"
+
+let coq_avl_op (o : op) = match o with
+  | OInsert (k, v) -> "OInsert " ^ coq_z k ^ " " ^ coq_z v | ORemove k -> "ORemove " ^ coq_z k
+  | OGet k -> "OGet " ^ coq_z k | OGetMut (k, v) -> "OGetMut " ^ coq_z k ^ " " ^ coq_z v
+  | OGetMut0 k -> "OGetMut0 " ^ coq_z k | OContains k -> "OContains " ^ coq_z k
+  | OLowest -> "OLowest" | OLen -> "OLen" | OIsEmpty -> "OIsEmpty" | OIsFull -> "OIsFull"
+  | OCapacity -> "OCapacity" | OExt x -> "OExt " ^ coq_n x | OOpenMut -> "OOpenMut" | OOpenRo -> "OOpenRo"
+let coq_avl_out (o : out) = match o with
+  | RSlot o -> "(RSlot " ^ coq_opt coq_n o ^ ")" | RVal o -> "(RVal " ^ coq_opt coq_z o ^ ")"
+  | RBool b -> "(RBool " ^ coq_bool b ^ ")" | RNum x -> "(RNum " ^ coq_n x ^ ")" | RUnit -> "RUnit"
+let coq_hash_op (o : hop) = match o with
+  | HInsert v -> "HInsert " ^ coq_z v | HRemove v -> "HRemove " ^ coq_z v | HContains v -> "HContains " ^ coq_z v
+  | HSize -> "HSize" | HIsFull -> "HIsFull" | HIsEmpty -> "HIsEmpty" | HCapacity -> "HCapacity"
+  | HIter -> "HIter" | HReopen -> "HReopen"
+let coq_hash_out (o : hout) = match o with
+  | HBool b -> "(HBool " ^ coq_bool b ^ ")" | HNum x -> "(HNum " ^ coq_n x ^ ")"
+  | HList l -> "(HList " ^ coq_list coq_z l ^ ")" | HUnit -> "HUnit"
+let coq_arr_op (o : aop) = match o with
+  | AInsert c -> "AInsert " ^ coq_cell c | ARemove c -> "ARemove " ^ coq_cell c | ATake c -> "ATake " ^ coq_cell c
+  | AGet c -> "AGet " ^ coq_cell c | AGetMut (c, d) -> "AGetMut " ^ coq_cell c ^ " " ^ coq_cell d
+  | AContains c -> "AContains " ^ coq_cell c | ALen -> "ALen" | AIsFull -> "AIsFull" | AIsEmpty -> "AIsEmpty"
+  | ADeref -> "ADeref" | AExt x -> "AExt " ^ coq_n x
+let coq_arr_out (o : aout) = match o with
+  | ABool b -> "(ABool " ^ coq_bool b ^ ")" | ANum x -> "(ANum " ^ coq_n x ^ ")"
+  | ACell o -> "(ACell " ^ coq_opt coq_cell o ^ ")" | AList l -> "(AList " ^ coq_list coq_cell l ^ ")" | AUnit -> "AUnit"
+
+let coq_case (c : case) =
+  let skip = List.exists (fun t -> match t with "fill" :: _ -> true | _ -> false) c.ops || kv c.header "raw" <> None in
+  if not skip then
+  match c.kind with
+  | "avl" ->
+    let bits = n_of_int (kvn c.header "bits") in
+    let cap = n_of_int (kvn c.header "cap") and nrec = n_of_int (kvn c.header "nrec") in
+    let ops = List.filter_map parse_avl_op c.ops in
+    let rec run s ops = match ops with
+      | [] -> []
+      | o :: r -> (match step_c bits s o with
+          | Ok (((s', x), _)) -> ("Ok " ^ coq_avl_out x) :: run s' r
+          | Panic _ -> ["PANIC"] | Fuel -> ["FUEL"]) in
+    let res = run (init_c cap nrec) ops in
+    if not (List.mem "PANIC" res || List.mem "FUEL" res) then
+      pr "Goal Avl.Spec.run_c %s (Avl.Spec.init_c %s %s) [%s] = [%s]. Proof. vm_compute. reflexivity. Qed.\n"
+        (coq_n bits) (coq_n cap) (coq_n nrec) (String.concat "; " (List.map coq_avl_op ops)) (String.concat "; " res)
+  | "hash" ->
+    let vty = kvs c.header "vty" in
+    let hf, _ = hash_fn vty in
+    let hfs = if String.length vty > 4 && String.sub vty 0 4 = "weak"
+      then "(hash_weak " ^ coq_z (z_of_string (String.sub vty 4 (String.length vty - 4))) ^ ")"
+      else "(hash_int " ^ (match vty with "u64" -> "8" | "u32" -> "4" | _ -> "1") ^ "%nat)" in
+    let cap = n_of_int (kvn c.header "cap") and nrec = n_of_int (kvn c.header "nrec") in
+    let ops = List.filter_map parse_hash_op c.ops in
+    let rec run s ops = match ops with
+      | [] -> []
+      | o :: r -> (match hstep_c hf s o with
+          | Ok ((s', x)) -> ("Ok " ^ coq_hash_out x) :: run s' r
+          | Panic _ -> ["PANIC"] | Fuel -> ["FUEL"]) in
+    let res = run (hinit_c cap nrec) ops in
+    if not (List.mem "PANIC" res || List.mem "FUEL" res) then
+      pr "Goal Hash.Spec.hrun_c %s (Hash.Spec.hinit_c %s %s) [%s] = [%s]. Proof. vm_compute. reflexivity. Qed.\n"
+        hfs (coq_n cap) (coq_n nrec) (String.concat "; " (List.map coq_hash_op ops)) (String.concat "; " res)
+  | "arr" ->
+    let p = n_of_int (kvn c.header "p") in
+    let slots = n_of_int (kvn c.header "slots") in
+    let ops = List.filter_map parse_arr_op c.ops in
+    let rec run s ops = match ops with
+      | [] -> []
+      | o :: r -> (match astep_c p s o with
+          | Ok (((s', x), _)) -> ("Ok " ^ coq_arr_out x) :: run s' r
+          | Panic _ -> ["PANIC"] | Fuel -> ["FUEL"]) in
+    let res = run (ainit_c [] [] slots) ops in
+    if not (List.mem "PANIC" res || List.mem "FUEL" res) then
+      pr "Goal Arr.Spec.arun_c %s (Arr.Spec.ainit_c [] [] %s) [%s] = [%s]. Proof. vm_compute. reflexivity. Qed.\n"
+        (coq_n p) (coq_n slots) (String.concat "; " (List.map coq_arr_op ops)) (String.concat "; " res)
+  | _ -> ()
+
 (* ---------- main ---------- *)
 let flush_out () = print_string (Buffer.contents out); Buffer.clear out
 
+let coq_mode = ref false
 let run_case (c : case) =
+  if !coq_mode then coq_case c else
   (match c.kind with
    | "avl" -> run_avl c | "hash" -> run_hash c | "arr" -> run_arr c
    | "pstr" -> run_pstr c | "podstr" -> run_podstr c | "pod" -> run_pod c
@@ -555,6 +640,7 @@ let () =
   Array.iteri (fun i a -> if i > 0 then
                   match a with
                   | "--full" -> full := true
+                  | "--coq" -> coq_mode := true
                   | "--decode" -> mode := "decode"
                   | p -> path := p) Sys.argv;
   let ic = if !path = "" then stdin else open_in !path in
